@@ -147,10 +147,23 @@ pub fn replay(a: &Args) {
         let valid = &docs[ci % docs.len()];
         let input = setup_input(&dir, c["input"].as_str().unwrap(), valid, ci / 7);
         let (output, old) = setup_output(&dir, c["out"].as_str().unwrap(), &input, ci / 5);
-        let derive = unchars(&c["args"]["derive"]);
-        let mut args: Vec<String> = vec!["--parser".into(), c["args"]["parser"].as_str().unwrap().into(),
-                                         "--derive".into(), derive.clone(), "--sort".into(), c["args"]["sort"].as_str().unwrap().into(),
-                                         input.to_string_lossy().into_owned()];
+        // an option the behaviour leaves out ("ABSENT") is not passed; the others cycle through the spellings clap accepts
+        let mut args: Vec<String> = Vec::new();
+        let mut flag = |long: &str, short: &str, val: String, form: usize| match form % 3 {
+            0 => { args.push(format!("--{}", long)); args.push(val); }
+            1 => args.push(format!("--{}={}", long, val)),
+            _ => { args.push(format!("-{}", short)); args.push(val); }
+        };
+        if c["args"]["parser"] != "ABSENT" {
+            flag("parser", "p", c["args"]["parser"].as_str().unwrap().into(), ci);
+        }
+        if c["args"]["derive"] != json!(["ABSENT"]) {
+            flag("derive", "d", unchars(&c["args"]["derive"]), ci / 3);
+        }
+        if c["args"]["sort"] != "ABSENT" {
+            flag("sort", "s", c["args"]["sort"].as_str().unwrap().into(), ci / 9);
+        }
+        args.push(input.to_string_lossy().into_owned());
         if let Some(o) = &output {
             args.push(o.to_string_lossy().into_owned());
         }
